@@ -159,7 +159,12 @@ Definition do_hop (keys : list N) (s : st) (h : hop) (ob : obs) : st * list verd
       (s2, [v1])
   | HDelete k =>
       let (s1, v1) := model_unit s (ODelete k) "Delete" in
-      let s2 := store s1 k None in
+      let s2' := store s1 k None in
+      (* a Delete that overlaps the held save of its key: same signature as a read that overlaps it *)
+      let s2 := if is_held s k
+                then {| s_mc := s_mc s2'; s_sm := s_sm s2'; s_wbp := s_wbp s2'; s_sigwb := s_sigwb s2';
+                        s_sigif := fset k true (s_sigif s2'); s_fresh := s_fresh s2'; s_unk := s_unk s2'; s_held := s_held s2' |}
+                else s2' in
       let sv := match find (fun kx => N.eqb (fst kx) k) (o_disk ob) with
                 | Some (_, Some _) => classify s k "Delete left the key on disk"
                 | _ => Ok
@@ -203,7 +208,15 @@ Definition do_hop (keys : list N) (s : st) (h : hop) (ob : obs) : st * list verd
       (s2, app sv [v1; v2])
   end.
 
+(* a key the plain map does not hold (deleted, or never created) must not be on disk *)
+Definition absent_checks (s : st) (ob : obs) : list verdict :=
+  map (fun kx => match s_sm s (fst kx), snd kx with
+                 | None, Some _ => classify s (fst kx) "a deleted key is on disk again"
+                 | _, _ => Ok
+                 end) (o_disk ob).
+
 Definition state_checks (s : st) (ob : obs) : list verdict :=
+  app (absent_checks s ob)
   [ corr (Nat.eqb (l_len (c_lfu (s_mc s))) (o_len ob)) "Len: model and implementation hold a different number of entries";
     corr (forallb (fun kx => oN_eqb (c_disk (s_mc s) (fst kx)) (snd kx)) (o_disk ob)) "Badger content differs from the model's disk" ].
 
